@@ -132,7 +132,7 @@ func checkC16(c c16Case, rec *Rec) *Violation {
 	}
 	if c.Kind == "engine" {
 		// through the engine: the document request itself is excepted
-		text := c16RuleText(c) + "\n##.generic\nexample.org##.specific\n"
+		text := c16RuleText(c) + "\n##.generic\nexample.org##.specific\nexample.*##.wild\n"
 		st, err := filterlist.NewRuleStorage([]filterlist.RuleList{&filterlist.StringRuleList{ID: 1, RulesText: text}})
 		if err != nil {
 			return viol(id, "C16:harness", "storage: %v", err)
@@ -140,6 +140,10 @@ func checkC16(c c16Case, rec *Rec) *Violation {
 		e := urlfilter.NewEngine(st)
 		res := e.MatchRequest(rules.NewRequest("http://example.org/", "", rules.TypeDocument))
 		got = res.GetCosmeticOption()
+		// the same page requested from a same-site referrer: the exception matches the referrer as well
+		if g2 := e.MatchRequest(rules.NewRequest("http://example.org/", "http://example.org/from", rules.TypeDocument)).GetCosmeticOption(); g2 != got {
+			return viol(id, "C16:option-depends-on-referrer", "rule %q: GetCosmeticOption=%03b without a referrer but %03b with a same-site referrer", c16RuleText(c), got, g2)
+		}
 		// the same engine is first asked with everything enabled: the answer for the derived option must not depend on that
 		if all := e.GetCosmeticResult("example.org", rules.CosmeticOptionAll); !inList(".generic", all.ElementHiding.Generic) || !inList(".specific", all.ElementHiding.Specific) {
 			return viol(id, "C16:engine-selectors", "with every option enabled the selectors are generic=%q specific=%q", all.ElementHiding.Generic, all.ElementHiding.Specific)
@@ -148,6 +152,9 @@ func checkC16(c c16Case, rec *Rec) *Violation {
 		cr := e.GetCosmeticResult("example.org", got)
 		hasG := inList(".generic", cr.ElementHiding.Generic)
 		hasS := inList(".specific", cr.ElementHiding.Specific)
+		if hasW := inList(".wild", cr.ElementHiding.Specific); hasW != hasS {
+			return viol(id, "C16:engine-selectors", "rule %q: option %03b: wildcard-TLD selector present=%v but plain specific selector present=%v", c16RuleText(c), got, hasW, hasS)
+		}
 		wantG := want&rules.CosmeticOptionCSS != 0 && want&rules.CosmeticOptionGenericCSS != 0
 		wantS := want&rules.CosmeticOptionCSS != 0
 		if got == want && (hasG != wantG || hasS != wantS) {
